@@ -39,11 +39,27 @@ def main():
     ap.add_argument("tier", nargs="?", default=os.environ.get("VERIF_TIER", "quick"))
     ap.add_argument("--replay")
     ap.add_argument("--verbose", action="store_true")
+    ap.add_argument("--subset", type=int, default=0)      # internal: every k-th case only, no evidence (the -O run)
     a = ap.parse_args()
     pid = a.prop.upper()
     tier = a.tier if a.tier in ("quick", "thorough") else "quick"
     seed = int(os.environ.get("VERIF_SEED", "0"))
     t0 = time.time()
+    if a.replay and not sys.flags.optimize:
+        with open(a.replay) as f:
+            if json.load(f).get("python_O"):      # a violation met under `python -O`: replay it there
+                os.environ["PYTHONOPTIMIZE"] = "1"
+                os.execv(common.PY, [common.PY, "-O", "-u", "-m", "vlib.main"] + sys.argv[1:])
+    # the interpreter's own configuration is part of the environment: a sample of the cases also runs under
+    # `python -O` (PYTHONOPTIMIZE), where assert statements - and whatever they do - do not exist
+    opt_child = None
+    if not a.replay and not a.subset and not sys.flags.optimize and os.environ.get("VERIF_OPT", "on") != "off":
+        import subprocess
+        k = getattr(_load(pid), "OPT_SUBSET", {"quick": 4, "thorough": 8})[tier]
+        opt_log = os.path.join(common.scratch_root(), "python_O.log")
+        opt_child = (subprocess.Popen([common.PY, "-O", "-u", "-m", "vlib.main", pid, tier, "--subset", str(k)],
+                                      stdout=open(opt_log, "w"), stderr=subprocess.STDOUT, cwd=common.VERIF,
+                                      env=dict(os.environ, PYTHONOPTIMIZE="1", VERIF_OPT="off")), opt_log, k)
     common.ensure_deps()
     common.import_repo()
     from . import typefuzz
@@ -57,6 +73,8 @@ def main():
         cases = [rp["case"]]
     else:
         cases = mod.cases(tier, seed)
+        if a.subset:
+            cases = [c for c in cases if not (isinstance(c, dict) and c.get("kind") in ("repo_suite", "huge", "huge_output"))][::a.subset]
     timeout = getattr(mod, "TIMEOUT", {"quick": 240, "thorough": 900})[tier]
 
     def prog(d, n):
@@ -80,7 +98,7 @@ def main():
         mod.run_case(case, work, rec)
 
     chains = []
-    if not a.replay:
+    if not a.replay and not a.subset:
         chains = _chains(cases, tier, getattr(mod, "CHAIN", {"quick": 6, "thorough": 60}))
     results = runner.run_cases(cases, run_any, timeout=timeout, quiet=not a.verbose,
                                progress=prog)
@@ -145,21 +163,40 @@ def main():
             p = os.path.join(rdir, f"{h}.json")
             with open(p, "w") as f:
                 json.dump({"property": pid, "case": v["case"], "what": v["what"],
-                           "mech": v.get("mech"), "witness": v.get("witness")}, f, indent=1,
+                           "mech": v.get("mech"), "witness": v.get("witness"),
+                           "python_O": bool(sys.flags.optimize)}, f, indent=1,
                           default=str)
             replay_paths.append((p, v["what"]))
             if len(replay_paths) >= 25:
                 break
     # ---- required observations (a deciding monitor that was never reached => inconclusive)
     missing = []
-    if not a.replay:
+    if not a.replay and not a.subset:
         for k, need in getattr(mod, "REQUIRED_OBS", {}).items():
             have = obs.get(k, 0) if not k.startswith("set:") else len(sets.get(k[4:], ()))
             if have < need:
                 missing.append(f"{k}: {have} < {need}")
     wall = time.time() - t0
+    # ---- the sample run under python -O
+    opt_summary = None
+    opt_viol_lines = []
+    if opt_child is not None:
+        proc, opt_log, k = opt_child
+        try:
+            rc = proc.wait(timeout=4 * 3600)
+        except Exception:
+            proc.kill(); rc = None
+        txt = open(opt_log, errors="replace").read()
+        opt_viol_lines = [l for l in txt.split("\n") if l.startswith("VIOLATION")]
+        summ = [l for l in txt.split("\n") if l.startswith(f"[{pid} ") and "evaluations=" in l]
+        m_ = re.search(r"cases=(\d+) evaluations=(\d+)", summ[-1]) if summ else None
+        opt_summary = {"every_kth_case": k, "exit": rc, "cases_run": int(m_.group(1)) if m_ else 0,
+                       "evaluations": int(m_.group(2)) if m_ else 0, "violations": len(opt_viol_lines)}
+        if rc not in (0, 1) or not m_:
+            incs.append({"reason": "the sample run under python -O did not finish", "case": None})
+            print(txt[-1500:])
     # ---- evidence
-    if not a.replay:
+    if not a.replay and not a.subset:
         cov = {
             "evaluations": int(evals),
             "distinct_nontrivial": len(nontriv),
@@ -179,6 +216,8 @@ def main():
             "distinct_seen_items": {k: sorted(v)[:60] for k, v in sorted(sets.items()) if len(v) <= 200},
             "required_observations_missing": missing,
         }
+        if opt_summary is not None:
+            cov["sample_under_python_O"] = opt_summary
         if hasattr(mod, "extra_coverage"):
             cov.update(mod.extra_coverage(obs, sets))
         ev = {"property_id": pid, "tier": tier, "seed": seed,
@@ -206,6 +245,12 @@ def main():
     for e in errors[:3]:
         print("HARNESS-ERROR", json.dumps(e["case"], default=str)[:300])
         print(e["error"])
+    if opt_viol_lines:
+        print(f"   {len(opt_viol_lines)} violation(s) in the sample of cases run under python -O (assert statements removed):")
+        for l in opt_viol_lines[:25]:
+            print(l + "  [python -O]")
+        if not unlisted:
+            sys.exit(1)
     if unlisted:
         groups = {}
         for v in unlisted:
@@ -216,8 +261,13 @@ def main():
         for p, what in replay_paths:
             print(f"VIOLATION property={pid} replay={p}  # {what[:200]}")
         sys.exit(1)
-    if errors or missing or (timeouts and timeouts > max(1, len(cases) // 20)) or evals == 0:
+    if a.subset and not errors:
+        sys.exit(0)
+    opt_bad = opt_summary is not None and (opt_summary["exit"] not in (0, 1) or not opt_summary["evaluations"])
+    if errors or missing or (timeouts and timeouts > max(1, len(cases) // 20)) or evals == 0 or opt_bad:
         why = []
+        if opt_bad:
+            why.append("the sample run under python -O did not finish or evaluated nothing")
         if errors:
             why.append(f"{len(errors)} harness errors")
         if missing:
